@@ -98,6 +98,18 @@ CHECKS.update({
         rule="both roles x every registration interleaving of up to A all-types and T type-specific outgoing handlers x every accept/refuse vector x store failing on the k-th save (k = never,1,2,3) x message type {Heartbeat, MarketDataRequest} x 3 sends; inbound: every registration interleaving of all-types / type-specific incoming handlers. Oracle: call log = [save, all-types in registration order, type-specific in registration order] cut at the first refusal; refusal or save failure => Send returns an error and nothing is transmitted; the bytes every handler sees, the stored bytes and the transmitted bytes are identical and stored under the transmitted MsgSeqNum.",
         assumptions=SESS_ASSUME + ["outgoing handlers yield to the scheduler inside the callback (arbitrary delay in application code)"],
     ),
+    "C08": dict(
+        engine="sess", level="model_checking", args=[],
+        deadline=dict(quick=140, thorough=1500),
+        rule="both roles x heartbeat interval N (quick {1,10,60}, thorough {1,2,10,30,60}) x every placement of up to 2 actions {application send, inbound Heartbeat, inbound application message} on a grid of virtual instants (k*tau/2, k*tau +-1 ms, incoming-timer ticks +-1 ms, N and both deadlines exactly and +-1 ms; thorough: also 3 actions on the tick grid), plus bursts of three actions at one instant and steady traffic of four periods for six intervals; horizon 3.5 T. Oracle on the virtual timeline of outbound messages from the logon message to the disconnect or horizon: every gap (including the final one) <= N + N/10, and every Heartbeat without TestReqID >= N after the previous outbound message. States = distinct placements executed; transitions = scheduler steps; a distinct non-trivial case = distinct (role, N, action kinds, observed heartbeat/test-request/disconnect counts).",
+        assumptions=SESS_ASSUME + ["H1 level: the connection's writer loop is represented by the harness task that drains DefaultHandler.Outgoing(); its timestamps are the virtual instants of hand-off"],
+    ),
+    "C09": dict(
+        engine="sess", level="model_checking", args=[],
+        deadline=dict(quick=140, thorough=1500),
+        rule="both roles x heartbeat interval N (quick {1,20,40}, thorough {1,5,20,39,40,60}, so that max(1,N/20) takes 1,1,1,1,2,3) x the same timed grid of placements as C08 (total silence is the empty placement; arrivals at deadline -1 ms / exactly / +1 ms for the first and second deadline; an answer at every grid instant of the second period; steady traffic). Oracle (window rule, T = N + max(1,N/20), L = latest of logon / last arrival / previous TestRequest): TestRequest only in [L+T, L+T+T/10), disconnect only while a TestRequest is outstanding and in the same window after it, nothing overdue at any event or at the horizon, any arrival restarts the period; disconnect event raised once and the handler context cancelled at the same instant. An arrival that shares its virtual instant with an expiry may be ordered either way.",
+        assumptions=SESS_ASSUME + ["closing of the socket after the handler stops is checked on the full stack by C13's scenarios (cause: silent peer)"],
+    ),
     "C16": dict(
         engine="sess", level="model_checking", args=[],
         deadline=dict(quick=110, thorough=1500),
@@ -109,7 +121,7 @@ CHECKS.update({
 ENGINES = [
     {"name": "codecmc", "path": "harness/codec", "serves_properties": ["C01", "C02", "C03", "C11", "C17", "C18"],
      "kind_free_text": "E1: bounded-exhaustive enumeration of the codec input space (templates x populations x values x damage x byte strings) on the real fix / fix/encoding packages against an independent reference codec"},
-    {"name": "vsched", "path": "engine/vsched + engine/rewrite + harness/sess", "serves_properties": ["C06", "C07", "C10", "C14", "C15", "C16", "C19"],
+    {"name": "vsched", "path": "engine/vsched + engine/rewrite + harness/sess", "serves_properties": ["C06", "C07", "C08", "C09", "C10", "C14", "C15", "C16", "C19"],
      "kind_free_text": "E2: the real transport/session code, source-rewritten so that goroutines, channels, select, sync, context, time and errgroup run on a controlled scheduler with virtual time; stateless deviation-bounded DFS over schedules and exhaustive enumeration of event histories"},
 ]
 
@@ -130,6 +142,8 @@ LEVEL_TEXT.update({
     "C16": "Explicit-state exploration of the real session over histories mixing valid and damaged administrative messages in every session state.",
     "C15": "Exhaustive enumeration of logout/stop scenarios (role x close timeout x traffic prefix x ending x answer timing) on the real session under strict virtual time, so that cancellation instants are compared exactly.",
     "C19": "Exhaustive enumeration of handler registration orders, accept/refuse vectors and store-failure positions on the real handler+session, with an instrumented store and call log as oracle.",
+    "C08": "Exhaustive timed-grid exploration of the real session and its polling timers under strict virtual time: every placement of up to k actions on a grid that contains all timer ticks, the deadlines and their +-1 ms neighbours, with the exact timeline of outbound messages as observation.",
+    "C09": "Exhaustive timed-grid exploration of the real session and its polling timers under strict virtual time with a window-rule oracle for TestRequest / disconnect, ties resolved either way.",
     "C10": "Exhaustive enumeration of (outbound history, resend range[, second range]) and of (stored counter, logon sequence number) pairs on the real session and store, every case executed to quiescence under the controlled scheduler and compared with the recorded first transmissions.",
     "C14": "Explicit-state exploration of the real logged-on session over all inbound histories up to a depth bound with a collision-forcing TestReqID alphabet, including queued back-to-back deliveries.",
 })
@@ -140,6 +154,8 @@ TECHNIQUE = {
     "C16": "explicit-state model checking of the implementation: exhaustive history enumeration over valid + damaged admin messages in every state",
     "C15": "explicit-state model checking of the implementation under virtual time: exhaustive enumeration of logout/stop scenarios and answer timings",
     "C19": "explicit-state model checking of the implementation: exhaustive enumeration of handler configurations and injected store faults",
+    "C08": "explicit-state model checking of the implementation under virtual time: exhaustive placement of timed events on a tick-aligned grid (discrete-event semantics)",
+    "C09": "explicit-state model checking of the implementation under virtual time: exhaustive placement of timed arrivals on a tick-aligned grid, window-rule oracle",
     "C10": "explicit-state model checking of the implementation: exhaustive enumeration of outbound histories x resend ranges under a controlled scheduler, reference = recorded first transmissions",
     "C14": "explicit-state model checking of the implementation: exhaustive logged-on history enumeration (depth-bounded) with TestReqID alphabet",
     "C01": "bounded-exhaustive input enumeration on the real code vs reference oracle (small-scope model checking of a sequential function)",
